@@ -57,7 +57,7 @@ fn flat_pushes(nodes: &[Node], out: &mut Vec<(String, bool)>) {
     }
 }
 
-pub fn check_run(cx: &Cx, run: &RoleRun, am: &crate::cmp::AttrMap, entry: &(String, String)) -> (Vec<BoundsFinding>, usize) {
+pub fn check_run(cx: &Cx, run: &RoleRun, am: &crate::cmp::AttrMap, entry: &(String, String), collapse: bool) -> (Vec<BoundsFinding>, usize) {
     let mut out = Vec::new();
     let mut checked = 0;
     let mut roots: BTreeMap<String, Ty> = BTreeMap::new();
@@ -86,7 +86,7 @@ pub fn check_run(cx: &Cx, run: &RoleRun, am: &crate::cmp::AttrMap, entry: &(Stri
             rounds.last_mut().unwrap().push((place, fp));
         }
         for pushes in rounds {
-        let sc = ScopeCheck { cl: &cl, doc: &cx.doc, kind: kind.clone(), cond: &p.cond };
+        let sc = ScopeCheck { cl: &cl, doc: &cx.doc, kind: kind.clone(), cond: &p.cond, assume_continue: collapse };
         let mut fail = |rule: &'static str, inst: String, msg: String| out.push(BoundsFinding { rule, inst, msg: format!("{msg} [path: {}]", cond_str(&p.cond).chars().take(400).collect::<String>()) });
         // split by scope / element
         let mut type_seg: Vec<(String, bool)> = Vec::new();
@@ -160,6 +160,7 @@ pub fn check_run(cx: &Cx, run: &RoleRun, am: &crate::cmp::AttrMap, entry: &(Stri
             }
         }
         // ---- field level
+        if std::env::var("GENLINT_DEBUG_BOUNDS").is_ok() { eprintln!("BOUNDSPATH {:?} fields={field_elems:?} vars={var_elems:?} pushes={pushes:?}", kind); }
         for f in &field_elems {
             let seg: Vec<(String, bool)> = field_segs.iter().filter(|s| s.0 == *f).flat_map(|s| s.1.clone()).collect();
             let parent_use: Option<Option<bool>> = if is_enum {
@@ -194,6 +195,7 @@ pub fn check_run(cx: &Cx, run: &RoleRun, am: &crate::cmp::AttrMap, entry: &(Stri
                 continue;
             };
             if !visited {
+                JUDGED.with(|c| c.set(c.get() + 1));
                 // explicit bound(...) levels of a field the derived code does not use: whether they are "reached" is
                 // not documented, so only the default bound on the field type is judged (C03)
                 if seg.iter().any(|x| x.1) {
@@ -201,11 +203,13 @@ pub fn check_run(cx: &Cx, run: &RoleRun, am: &crate::cmp::AttrMap, entry: &(Stri
                 }
                 continue;
             }
+            if std::env::var("GENLINT_DEBUG_BOUNDS").is_ok() { eprintln!("BOUNDS {:?} f={f} visited={visited} used={used} parent_use={parent_use:?} seg={seg:?} cond={}", kind, cond_str(&p.cond).chars().take(500).collect::<String>()); }
             let explicit_only: Vec<(String, bool)> = seg.iter().filter(|x| !x.1).cloned().collect();
             let with_helpers = !matches!(kind, RoleKind::Plain);
             match sc.segment(Scope::Field, &explicit_only, parent_use, with_helpers, stop_after.as_deref()) {
                 Err(e) => fail("ES-bounds-trace", format!("{:?}:field", kind), e),
                 Ok((u, _)) => {
+                    JUDGED.with(|c| c.set(c.get() + 1));
                     // default push on the field type iff resolution reached the end and the field is used through the trait
                     let n_default = seg.iter().filter(|x| x.1).count();
                     let want = if u == Some(true) && used { 1 } else { 0 };
@@ -226,7 +230,10 @@ pub fn check_run(cx: &Cx, run: &RoleRun, am: &crate::cmp::AttrMap, entry: &(Stri
     (out, checked)
 }
 
+thread_local! { static JUDGED: std::cell::Cell<usize> = Default::default(); }
+
 fn run_bounds(cx: &Cx, rep: &mut Report, rules: &[&str]) {
+    JUDGED.with(|c| c.set(0));
     let mut scratch = Report::new("x", "quick", &cx.verif);
     let am = attr_map(&cx.ix, &mut scratch);
     if !cx.canon_problems.is_empty() { rep.fail("unanalysable", "naming", "canonical-names", &format!("same-typed fields could not be told apart: {}", cx.canon_problems.join("; ")), "item_type.rs", json!({})); }
@@ -245,10 +252,11 @@ fn run_bounds(cx: &Cx, rep: &mut Report, rules: &[&str]) {
             }
         }
         rep.unanalysable(&run.label(), &run.unsupported.iter().filter(|u| !((u.contains("loop-carried write") || u.contains("loop-carried bounds flag")) && rules.contains(&"ES-bounds-trace"))).cloned().collect::<Vec<_>>());
-        let (fs, checked) = check_run(cx, run, &am, &entry);
+        let (fs, checked) = check_run(cx, run, &am, &entry, collapse);
         total_paths += checked;
         let mut failed_rules = std::collections::BTreeSet::new();
         for f in fs {
+            if std::env::var("GENLINT_DEBUG_BOUNDS").is_ok() && !rules.contains(&f.rule) { eprintln!("FILTERED {} {} {}", f.rule, f.inst, f.msg.chars().take(300).collect::<String>()); }
             if !rules.contains(&f.rule) { continue; }
             failed_rules.insert(f.rule);
             rep.fail(f.rule, &run.label(), &f.inst, &f.msg, &run.site(), json!({"mode": format!("{:?}", run.mode)}));
@@ -261,6 +269,8 @@ fn run_bounds(cx: &Cx, rep: &mut Report, rules: &[&str]) {
     rep.analysed.insert("role runs".into(), json!(runs.len()));
     rep.analysed.insert("successful paths whose bounds trace was checked".into(), json!(total_paths));
     rep.floor("role runs analysed for bounds", runs.len(), 19);
+    // the field-level judgement (default bound pushed iff the field is used and resolution reached the end) must actually be made
+    rep.floor("field-level default-bound judgements", JUDGED.with(|c| c.get()), if collapse { 3000 } else { 15000 });
 }
 
 pub fn c04(cx: &Cx) -> i32 {
